@@ -32,13 +32,13 @@ def main():
         demo_pkgs = sorted(set("./" + os.path.dirname(d) for d in demos if d.endswith(".go")))
         meta["demo_files"] = demos
         # without the change: demo passes
-        rc0, out0 = sh("go test -vet=off -count=1 %s" % " ".join(demo_pkgs), scratch)
+        rc0, out0 = sh("go test -tags verif -vet=off -count=1 %s" % " ".join(demo_pkgs), scratch)
         meta["ran"].append("original tree: go test %s -> exit %d" % (" ".join(demo_pkgs), rc0))
         rc, out = sh("git apply %s" % patch, scratch)
         if rc:
             print(name, "PATCH DOES NOT APPLY", out[:300]); return 2
         rcb, outb = sh("go build ./... ", scratch)
-        rc1, out1 = sh("go test -vet=off -count=1 %s" % " ".join(demo_pkgs), scratch)
+        rc1, out1 = sh("go test -tags verif -vet=off -count=1 %s" % " ".join(demo_pkgs), scratch)
         meta["ran"].append("with change: go build ./... -> exit %d; go test %s -> exit %d" % (rcb, " ".join(demo_pkgs), rc1))
         # baseline suite (all packages except the demo ones) with the change
         rcl, pk = sh("go list ./...", scratch)
